@@ -33,6 +33,11 @@ extern bool g_armed;  // set by the executor for counted executions (E0/E1), cle
 
 // Counting (and therefore failing) is enabled only while a library call is in progress, so that
 // injected faults land in PhQ / libstdc++ code and never in the harness's own operand set-up.
+#ifdef VRT_CONCURRENT
+// concurrent (ThreadSanitizer) build: no fault injection, and the harness itself must not share mutable state
+struct Count { Count() {} ~Count() {} Count(const Count&) = delete; Count& operator=(const Count&) = delete; };
+struct Pause { Pause() {} ~Pause() {} Pause(const Pause&) = delete; Pause& operator=(const Pause&) = delete; };
+#else
 struct Count {
   Count() { g_alloc.counting = g_armed; }
   ~Count() { g_alloc.counting = false; }
@@ -46,6 +51,7 @@ struct Pause {  // used by simulated devices (the stream sink) that are called f
   Pause(const Pause&) = delete;
   Pause& operator=(const Pause&) = delete;
 };
+#endif
 
 // ---------------------------------------------------------------------------------- stream sink
 // A std::streambuf with a byte budget: accepts `budget` bytes and then fails in one of three
@@ -132,7 +138,7 @@ struct Ctx {
     seed = sd; state = sd; forced[0] = p0; forced[1] = p1; forced_used = 0; os = o;
     h = 1469598103934665603ULL; result_len = 0; invalid_enum = false; invalid_enum_what = nullptr;
     nonfinite_result = false; text.clear(); sv_used = 0;
-    static std::uint64_t counter = 0;
+    static thread_local std::uint64_t counter = 0;
     exec_id = ++counter;
     correlated = vclass < 0 && ((sd >> 40) & 3) == 0;
   }
